@@ -502,7 +502,8 @@ pub fn run(tier: Tier) -> i32 {
     run.absorb(l);
 
     // (b) chunking
-    let docs: Vec<&Vec<u8>> = t.zdocs.iter().filter(|d| d.len() <= 80).take(tier.pick(200, 3000)).collect();
+    let docs: Vec<&Vec<u8>> = t.zdocs.iter().filter(|d| d.len() <= tier.pick(56, 80)).collect();
+    run.note("chunking_documents", json!(docs.len()));
     let l = par_for(docs.len(), |i, local| {
         let b = if docs[i].len() <= 12 { 4 } else { 2 };
         chunk_case(docs[i], b, local);
